@@ -12,40 +12,10 @@
 import Flamego.Proofs.ShortcutTree
 import Flamego.Proofs.Assoc
 import Flamego.Props.C09
+import Flamego.Model.RouterHistory
 namespace Flamego
 
-/-! ### 1. histories -/
-
-/-- one operation on the router, as the driver's `step` performs them (Driver/Router.lean) -/
-inductive RouterOp
-  /-- `router.addRoute` for the method list `methods`; `hid` identifies the handler / `*Route` -/
-  | add (hid : Nat) (r : Route) (methods : List String)
-  /-- `Route.Headers(pairs…)` on the handle `hid` -/
-  | headers (hid : Nat) (pairs : List HdrPair)
-  /-- `Route.Name(nm)` on the handle `hid` -/
-  | name (hid : Nat) (nm : Bytes)
-
-/-- the model functions behind one operation: `add` keeps the returned router whether or not the
-    registration reports success (a caller that recovers from Go's panic sees exactly that state),
-    `name` ignores a failure.  The driver's `ADD` line is `add` followed, on success, by a `name`
-    (the harness names every route it added); its `HDR` line calls `setHeaders` only when the handle
-    exists, and `setHeaders` on a missing handle is the identity. -/
-def Router.apply (E : Engine) (R : Router) : RouterOp → Router
-  | .add hid r methods => (R.addMethods E hid r methods []).1
-  | .headers hid pairs => R.setHeaders hid pairs
-  | .name hid nm => (R.setName hid nm).getD R
-
-def Router.runFrom (E : Engine) (R : Router) (ops : List RouterOp) : Router :=
-  ops.foldl (Router.apply E) R
-
-/-- the router after the history `ops`, from `newRouter()` -/
-def Router.run (E : Engine) (ops : List RouterOp) : Router := Router.runFrom E Router.new ops
-
-/-- the `(handle, route)` pairs of the registrations of a history, in order -/
-def addPairs : List RouterOp → List (Nat × Route)
-  | [] => []
-  | .add hid r _ :: ops => (hid, r) :: addPairs ops
-  | _ :: ops => addPairs ops
+/-! ### 1. histories: `RouterOp`, `Router.apply`, `Router.run`, `addPairs` are in Model/RouterHistory.lean -/
 
 /-- the guard of the C10 theorems: every registered route is as the parser produces it
     (`ParsedSeg`), and every registration has its own handle — the harness and the Go code give
